@@ -111,6 +111,9 @@ func verifC02SameValue(a, b Value) bool {
 	if a.t != b.t {
 		return false
 	}
+	if a.t == TypeFunc {
+		return true // function values have no comparable rendering (addresses); same dynamic type is all that is compared
+	}
 	if a.t.base() == TypeString || a.t >= nillableMin {
 		return a.String() == b.String()
 	}
